@@ -321,6 +321,8 @@ def _int_eval(e, env):
                 return min(args) if f == "min" else max(args)
             if f == "divmod" and len(args) == 2:
                 return divmod(args[0], args[1])
+            if f in ("np.mod", "numpy.mod", "math.fmod") and len(args) == 2:
+                return args[0] % args[1]
             if f == "__component__" and len(args) == 2 and isinstance(args[0], tuple):
                 return args[0][args[1]]
         except (ZeroDivisionError, TypeError, ValueError, OverflowError):
